@@ -11,6 +11,7 @@ import BevySyncModel.Slice.Comp
 import BevySyncModel.Slice.Panic
 import BevySyncModel.Slice.Skin
 import BevySyncModel.Slice.Fix
+import BevySyncModel.Slice.Filter
 /-! `bsmodel`: runs the executable model definitions on the cases the Rust harness prints, one line
 in, one line out (`ok <id>` / `MISMATCH <id> <what>`).  Lines starting with `#` are ignored.
 Only model files are imported (no proofs, no Mathlib), so this links as a native executable.
@@ -549,6 +550,31 @@ def checkFixRun (toks : List String) : String :=
     go {} 0 (script.splitOn ";")
   | _ => "MISMATCH parse fixrun"
 
+/-! ### emission filter (C04): an observed origination judged by the model's `allowedB` on the originator's configuration -/
+def clsOf (s : String) : Option Filter.Class :=
+  match s with
+  | "material" => some .material | "image" => some .image | "mesh" => some .mesh | "audio" => some .audio | _ => none
+
+def checkFilter (toks : List String) : String :=
+  match toks with
+  | ["comp", reg, synced, comps, excl, ty] =>
+    let e : Filter.Ent := { id := 1, marked := false, synced := synced == "1", comps := parseNats comps, changed := [], excluded := parseNats excl }
+    let p : Filter.Peer := Filter.Peer.mk (parseNats reg) (Filter.Switches.mk false false false) [e] []
+    if Filter.allowedB p (.comp 1 ty.toNat!) then "ok" else "MISMATCH filter: the model forbids this ComponentUpdated on the originator's configuration"
+  | ["spawn", synced] =>
+    let e : Filter.Ent := { id := 1, marked := false, synced := synced == "1", comps := [], changed := [], excluded := [] }
+    let p : Filter.Peer := Filter.Peer.mk [] (Filter.Switches.mk false false false) [e] []
+    if Filter.allowedB p (.spawn 1) then "ok" else "MISMATCH filter: the model forbids this EntitySpawn"
+  | ["asset", sw, cls, has] =>
+    match clsOf cls with
+    | some c =>
+      let b (i : Nat) : Bool := sw.toList.getD i '0' == '1'
+      let a : Filter.Asset := { cls := c, uuid := some 1, pendingEvent := true }
+      let p : Filter.Peer := Filter.Peer.mk [] (Filter.Switches.mk (b 0) (b 1) (b 2)) [] (if has == "1" then [a] else [])
+      if Filter.allowedB p (.asset c 1) then "ok" else "MISMATCH filter: the model forbids this asset update on the originator's configuration"
+    | none => "MISMATCH parse filter class"
+  | _ => "MISMATCH parse filter"
+
 def handle (st : DState) (line : String) : DState × Option String :=
   let line := line.trimAscii.toString
   if line.isEmpty || line.startsWith "#" then (st, none)
@@ -575,6 +601,7 @@ def handle (st : DState) (line : String) : DState × Option String :=
         | "fault" => checkFault rest
         | "skin" => checkSkin rest
         | "fixrun" => checkFixRun rest
+        | "filter" => checkFilter rest
         | _ => "MISMATCH unknown line kind"
       (st, some s!"{r} {id}")
     | _ => (st, some "MISMATCH parse ?")
